@@ -504,6 +504,34 @@ func (g *Gen) boolExpr(d int) *Node {
 func (g *Gen) boolExpr1(d int) *Node {
 	r := g.R
 	w := g.K.BoolBias
+	// nested and/or of one kind whose groups repeat an operand: the shape
+	// flattening turns into one operator with duplicate operands
+	if r.P(0.04) && d >= 2 {
+		name := PickS(r, []string{"and", "or", "&", "|", "&&", "||"})
+		var x *Node
+		if len(g.ob[TInt]) > 0 && r.P(0.7) {
+			// an undeclared/user operator one level below a built-in
+			x = Op(PickS(r, []string{"<=", ">", "=", "!="}), g.customCall(g.ob[TInt][r.Intn(len(g.ob[TInt]))], 1), Lit(VI(int64(r.Range(-2, 2)))))
+		} else if len(g.ob[TBool]) > 0 && r.P(0.5) {
+			x = Op("not", g.customCall(g.ob[TBool][r.Intn(len(g.ob[TBool]))], 1))
+		} else {
+			x = g.Expr(TBool, 2)
+		}
+		same := func() string {
+			if IsAndName(name) {
+				return PickS(r, []string{"and", "&", "&&"})
+			}
+			return PickS(r, []string{"or", "|", "||"})
+		}
+		g.left -= 3*x.Size() + 6
+		switch r.Intn(3) {
+		case 0:
+			return Op(name, Op(same(), x.Clone(), g.Leaf(TBool)), Op(same(), x.Clone(), g.Leaf(TBool)))
+		case 1:
+			return Op(name, g.Leaf(TBool), Op(same(), g.Leaf(TBool), x.Clone()), x.Clone())
+		}
+		return Op(name, x.Clone(), x.Clone(), g.Leaf(TBool))
+	}
 	// weights: and, or, if, not, xor, cmp, eq, ne, between, in, overlap, custom, fail
 	ws := []float64{2 * w, 2 * w, w, 1, 0.5, 2, 2, 1, 0.7, 1, 0.7, 0, 0}
 	if len(g.ob[TBool]) > 0 {
